@@ -150,6 +150,17 @@ def evaluate(ck, recs):
         in_domain = True
         if r.get("close_err"):
             fail("c05:close:%s" % r["close_err"], "DB.Close after the history reported %s" % r["close_err"], r, -1)
+        had_dup = any(s.get("dup_tx") for s in r["steps"])
+        if "prepare_cache_err" in r and not had_dup:
+            # restart view: a fresh Chain + PrepareCache over the final database must succeed and expose the DB tip
+            want = r.get("final_last_block_db")
+            if r["prepare_cache_err"] is not None:
+                fail("c05:restart:prepare-cache-failed", "PrepareCache on a fresh Chain over the final database failed (%s); "
+                     "genesis height %d, maxBlockCache %d" % (r["prepare_cache_err"], r["genesis_height"], r["maxcache"]), r, -1,
+                     observed=r["prepare_cache_err"])
+            elif want is not None and r.get("prepare_cache_tip") != want:
+                fail("c05:restart:cached-tip-differs", "after PrepareCache the cached tip %s differs from the database tip %s" % (
+                    json.dumps(r.get("prepare_cache_tip")), json.dumps(want)), r, -1, observed=r.get("prepare_cache_tip"))
         for ix, st in enumerate(r["steps"]):
             ck.count()
             op = st["op"]
@@ -265,6 +276,189 @@ def evaluate(ck, recs):
     return ra, rd, rr
 
 
+def evaluate_e(ck, recs):
+    """Executer-level histories (harness/cmd/c05e through harness/internal/exh)."""
+    ea_terms, de_terms, re_terms, tw_terms = [], [], [], []
+    ea_ctx, de_ctx, re_ctx, tw_ctx = [], [], [], []
+    stats = ck.extra.setdefault("executer_step_kinds", {})
+
+    def bump(k):
+        stats[k] = stats.get(k, 0) + 1
+
+    def inp(r):
+        return {"k": r["k"], "seed": r["seed"], "idx": r["idx"], "genesis_time": r["genesis_time"]}
+
+    def fail(key, what, r, ix, spec=True, observed=None, corr="C05 oracle (Executer level)"):
+        f = dict(kind="history", key=key, what=what, case={"ehistory": inp(r), "step": ix}, observed=observed,
+                 theorem_or_correspondence=corr)
+        f["spec_violated"] = spec
+        ck.failures.append(f)
+
+    def apply_term(it, st, keep):
+        b = st["blk"]
+        h = b["height"]
+        post = dict(map(tuple, st["post"]))
+        denc = post.get("33%08x" % h, "")
+        evb = post.get("09%08x" % h)
+        prune = st["fh_post"] if st["fh_post"] > st["fh_pre"] else None
+        return "(%s, %s, %s, %d, %s, %s, %s, %s, %s, %s)" % (
+            dump_term(it, st["pre"]), blk_term(it, b), "None" if evb is None else "(Some %s)" % it.v(evb), st["fh_post"],
+            cbool(st["remove_temp"]), zlit(keep), it.v(denc), optN(prune), diff_term(decode_diff(denc)), dump_term(it, st["post"])), evb, prune
+
+    for r in recs:
+        if r["k"] == "edup":
+            ck.count()
+            bump("dup-tx scenario")
+            if r.get("accepted") and (not r.get("tx_record_present") or r.get("get_b1_fresh") != "ok"):
+                fail("c05:dup-tx:earlier-block-tx-record-removed",
+                     "Executer accepted block B2 repeating transaction %s of its parent B1; deleting B2 removed the record 06|txid of "
+                     "B1 (tx_record_present=%s), a fresh DataAccess.GetBlock(B1) answers %s, after restart the cached tip is %s while "
+                     "the database tip is %s" % (r["t"], r.get("tx_record_present"), r.get("get_b1_fresh"),
+                                                 json.dumps(r.get("restart_tip")), json.dumps(r.get("db_tip"))), r, -1,
+                     observed={"tx_record_present": r.get("tx_record_present"), "get_b1_fresh": r.get("get_b1_fresh"),
+                               "restart_tip": r.get("restart_tip")})
+            continue
+        it = Interner()
+        keep = r["keep"]
+        spans = []
+        all_ev, all_dfb, all_temps = None, None, set()
+        for ix, st in enumerate(r["steps"]):
+            ck.count()
+            op = st["op"]
+            ok = st.get("err") == "ok" and not st.get("panic")
+            bump("%s:%s" % (op, st.get("err") if not st.get("panic") else "panic"))
+            if st.get("panic"):
+                fail("c05:executer:panic:%s" % op, "Executer %s step #%d panicked: %s" % (op, ix, st["panic"]), r, ix, observed=st["panic"])
+                continue
+            tip = st.get("tip_after")
+            dbt = db_tip(st["post"])
+            if dbt is not None and (tip is None or tip["height"] != dbt[0] or tip["id"] != dbt[1]):
+                fail("c05:executer:tip", "after %s step #%d the cached tip %s differs from the database tip %s" % (
+                    op, ix, json.dumps(tip), dbt), r, ix, observed=tip)
+            if not ok:
+                if st["pre"] != st["post"]:
+                    fail("c05:executer:%s:failed-step-changed-db:%s" % (op, st.get("err")),
+                         "%s step #%d returned %s but changed the database" % (op, ix, st.get("err")), r, ix)
+                if op == "delete" and st.get("below_finalized") and st.get("err") != "finalized":
+                    fail("c05:executer:delete-below-finalized", "delete of a block at or below the finalized height answered %s" % st.get("err"), r, ix)
+                if op == "apply":
+                    fail("c05:executer:valid-block-rejected:%s" % st.get("err"), "valid block rejected at step #%d: %s" % (ix, st.get("err")), r, ix)
+                continue
+            if op == "apply":
+                b = st["blk"]
+                h = b["height"]
+                term, evb, prune = apply_term(it, st, keep)
+                ea_terms.append(term)
+                ea_ctx.append((r, ix))
+                if (st["n_events"] > 0) != (evb is not None):
+                    fail("c05:executer:events-record", "apply step #%d: %d events produced but events record %s" % (
+                        ix, st["n_events"], "absent" if evb is None else "present"), r, ix)
+                spans.append(dict(pre=st["pre"], ev=None, dfb=None, temps=set(), ix=ix, tip=db_tip(st["pre"]), votes=st["votes_pre"]))
+                m = min_event_delete(st["fh_post"], h, keep)
+                for sp in spans:
+                    if m is not None:
+                        sp["ev"] = max(sp["ev"] or 0, m)
+                    if prune is not None:
+                        sp["dfb"] = max(sp["dfb"] or 0, prune)
+                    sp["temps"].add(h)
+                if m is not None:
+                    all_ev = max(all_ev or 0, m)
+                if prune is not None:
+                    all_dfb = max(all_dfb or 0, prune)
+                all_temps.add(h)
+                ck.nontrivial(("eapply", b["id"]))
+            else:
+                h = st["height"]
+                if not spans:
+                    fail("c05:executer:delete:unexpected-success", "delete step #%d succeeded below the history" % ix, r, ix)
+                    continue
+                sp = spans.pop()
+                for s2 in spans + [sp]:
+                    s2["temps"].add(h)
+                all_temps.add(h)
+                pre_map = dict(map(tuple, st["pre"]))
+                df = decode_diff(pre_map.get("33%08x" % h, ""))
+                de_terms.append("(%s, %s, %s, %s, %s)" % (dump_term(it, st["pre"]), diff_term(df), blk_term(it, st["blk"]),
+                                                        cbool(st["save_temp"]), dump_term(it, st["post"])))
+                de_ctx.append((r, ix))
+                if st["save_temp"] and st.get("temp_ok") is not True:
+                    fail("c05:executer:temp-block-not-retrievable", "delete step #%d with saveTemp: removed block not returned by GetTempBlocks" % ix, r, ix)
+                if st.get("votes_post") != sp["votes"]:
+                    fail("c05:executer:bft-store-not-restored", "delete step #%d: the BFT store (VerifC02DumpVotes digest) differs from the one "
+                         "before apply step #%d" % (ix, sp["ix"]), r, ix, observed=st.get("votes_post"))
+                re_terms.append("(%s, %s, %s, %s, [%s])" % (dump_term(it, sp["pre"]), dump_term(it, st["post"]), optN(sp["ev"]),
+                                                            optN(sp["dfb"]), "; ".join(str(x) for x in sorted(sp["temps"]))))
+                re_ctx.append((r, ix, sp["ix"]))
+                if sp["tip"] != db_tip(st["post"]):
+                    fail("c05:executer:restore:db-tip", "delete step #%d: database tip differs from the tip before apply #%d" % (ix, sp["ix"]), r, ix)
+                ck.nontrivial(("erestore", st["id"], sp["ix"], ix))
+        rs = r.get("restart")
+        if rs is not None:
+            if rs.get("err") is not None or rs.get("tip") != rs.get("db_tip"):
+                fail("c05:executer:restart", "after Restart (Init incl. PrepareCache) err=%s cached tip %s database tip %s" % (
+                    rs.get("err"), json.dumps(rs.get("tip")), json.dumps(rs.get("db_tip"))), r, -1, observed=rs)
+        tw = r.get("twin")
+        if tw is not None and tw.get("a") is not None and tw.get("t") is not None:
+            ck.count()
+            bump("twin")
+            if any(e != "ok" for e in tw["err_a"] + tw["err_t"]):
+                fail("c05:executer:twin:step-failed", "reorg probe: a step failed: %s / %s" % (tw["err_a"], tw["err_t"]), r, -2)
+            else:
+                ev, dfb, temps = all_ev, all_dfb, set(all_temps)
+                fin_a = int(dict(map(tuple, tw["a"])).get("1b", "00000000"), 16)
+                for blk, fh in ((tw["b"], tw["fh_b_post"]), (tw["b2"], fin_a)):
+                    m = min_event_delete(fh, blk["height"], keep)
+                    if m is not None:
+                        ev = max(ev or 0, m)
+                    temps.add(blk["height"])
+                if tw["fh_b_post"] > tw["fh_b_pre"]:
+                    dfb = max(dfb or 0, tw["fh_b_post"])
+                if fin_a > tw["fh_b_pre"]:
+                    dfb = max(dfb or 0, fin_a)
+                tw_terms.append("(%s, %s, %s, %s, [%s])" % (dump_term(it, tw["t"]), dump_term(it, tw["a"]), optN(ev), optN(dfb),
+                                                            "; ".join(str(x) for x in sorted(temps))))
+                tw_ctx.append(r)
+                if tw["tip_a"] != tw["tip_t"] or tw["votes_a"] != tw["votes_t"]:
+                    fail("c05:executer:twin:tip-or-bft-store", "reorg probe: node (apply B, delete B, apply B') and twin (apply B') differ in "
+                         "tip or BFT store digest", r, -2, observed={"tip_a": tw["tip_a"], "tip_t": tw["tip_t"]})
+                ck.nontrivial(("twin", tw["b2"]["id"]))
+    ra = ck.coq_eval(IMPORTS, "eapply_case", "check_eapply", ea_terms, shard=25, tag="eapply")
+    rd = ck.coq_eval(IMPORTS, "delete_case", "check_delete", de_terms, shard=25, tag="edelete")
+    rr = ck.coq_eval(IMPORTS, "restore_case", "check_restore", re_terms, shard=25, tag="erestore")
+    rt = ck.coq_eval(IMPORTS, "restore_case", "check_restore", tw_terms, shard=10, tag="etwin")
+    for name, res, ctx in (("apply", ra, ea_ctx), ("delete", rd, de_ctx)):
+        if res is None:
+            continue
+        for code, (r, ix) in zip(res, ctx):
+            if code != 0:
+                spec_bad = code >= 2
+                fail("c05:executer:%s:%s" % (name, "spec" if spec_bad else "model"),
+                     "Executer %s step #%d: the database after the step %s" % (
+                         name, ix, "violates the step oracle (stored diff classifies exactly the changed consensus-store keys / block "
+                         "records present or absent / temp block)" if spec_bad else "differs from the batch computed by the proved model"),
+                     r, ix, spec=spec_bad, corr="Corr.C05.check_%s vs consensus.Executer" % ("eapply" if name == "apply" else "delete"))
+    if rr is not None:
+        for code, (r, ix, aix) in zip(rr, re_ctx):
+            if code != 0:
+                pre = dict(map(tuple, r["steps"][aix]["pre"]))
+                post = dict(map(tuple, r["steps"][ix]["post"]))
+                diffk = sorted(k for k in set(pre) | set(post) if pre.get(k) != post.get(k) and k[:2] not in ("1b", "07"))
+                fail("c05:executer:restore:prefix-%s" % (diffk[0][:2] if diffk else "??"),
+                     "Executer.deleteBlock at step #%d does not restore the database of before processValidated step #%d: keys %s differ" % (
+                         ix, aix, diffk[:6]), r, ix, observed=diffk[:20], corr="Corr.C05.check_restore (C05_delete_inverts_apply_partial)")
+    if rt is not None:
+        for code, r in zip(rt, tw_ctx):
+            if code != 0:
+                a = dict(map(tuple, r["twin"]["a"]))
+                t = dict(map(tuple, r["twin"]["t"]))
+                diffk = sorted(k for k in set(a) | set(t) if a.get(k) != t.get(k) and k[:2] not in ("1b", "07"))
+                fail("c05:executer:twin:prefix-%s" % (diffk[0][:2] if diffk else "??"),
+                     "reorg confluence: apply B, delete B, apply B' differs from apply B' on a twin node at keys %s" % diffk[:6], r, -2,
+                     observed=diffk[:20], corr="Corr.C05.check_restore (C05_reorg_confluence_partial)")
+    ck.extra["executer_restore_checks"] = len(re_terms)
+    ck.extra["executer_twin_checks"] = len(tw_terms)
+
+
 def run(ck):
     ck.prove(extra_targets=["Corr/C05.vo"])
     binp = ck.go_build("c05")
@@ -282,6 +476,12 @@ def run(ck):
                 if extra:
                     recs = extra + recs
     evaluate(ck, recs)
+    bine = ck.go_build("c05e")
+    if bine:
+        erecs = ck.run_harness(bine, ["-n", "25" if ck.tier == "quick" else "300"], out_name="ecases.jsonl")
+        if erecs is not None:
+            evaluate_e(ck, erecs)
+            ck.extra["executer_histories"] = len(erecs)
     for r in recs[:3]:
         ck.sample({"keep": r["keep"], "maxcache": r["maxcache"], "genesis_height": r["genesis_height"],
                    "steps": [[s["op"], s.get("err"), s.get("height", s.get("blk", {}).get("height"))] for s in r["steps"]]})
@@ -309,6 +509,16 @@ def replay(ck, path):
         if not case:
             print("replay names a broken obligation, no input: %s" % doc.get("what"))
             run(ck)
+            return ck.finish(LEVEL)
+        if "ehistory" in case:
+            inp = os.path.join(ck.work, "replay_in.jsonl")
+            open(inp, "w").write(json.dumps(case["ehistory"]) + "\n")
+            bine = ck.go_build("c05e")
+            if bine:
+                erecs = ck.run_harness(bine, ["-in", inp], out_name="replay.jsonl")
+                if erecs is not None:
+                    evaluate_e(ck, erecs)
+                    print("replayed %d executer-level records" % len(erecs))
             return ck.finish(LEVEL)
         inp = os.path.join(ck.work, "replay_in.jsonl")
         open(inp, "w").write(json.dumps(case["history"]) + "\n")
